@@ -69,8 +69,14 @@ fn show_errors(heap: &Heap, errors: &[CompileTimeError], sources: &HashMap<Modul
     .map(|e| {
       let kind = match &e.detail {
         ErrorDetail::InvalidSyntax(_) => "S".to_string(),
-        ErrorDetail::CannotResolveClass { module_reference: _, name } => {
-          format!("U:{}", hex(name.as_str(heap).as_bytes()))
+        // name + the module in which the class was looked up (the document itself, or the module
+        // an import of the document names)
+        ErrorDetail::CannotResolveClass { module_reference, name } => {
+          format!(
+            "U:{}:{}",
+            hex(name.as_str(heap).as_bytes()),
+            hex(module_reference.pretty_print(heap).as_bytes())
+          )
         }
         _ => "O".to_string(),
       };
